@@ -562,6 +562,33 @@ def build(kind, fname, extra, rg, probe, vals=None):
         rep.holders = [m]
         rep.slots = [(m, "dct['a']", 0), (m, "dct[1]", 1)]
         rep.nobj = 2
+    elif base == "em_dict_rev":
+        # dict-held tensors used POSITIONALLY (iteration order of the dict) and declared in the reverse of the
+        # insertion order: a substitution must not reorder the dict
+        class EMDictRev(EditableModule):
+            def __init__(self):
+                self.dct = {"a": a, 1: b}
+
+            def fn(self, *args):
+                probe.tick()
+                xs, pp, s = split(args)
+                vals = list(self.dct.values())
+                return core(*xs, vals[0] * vals[0], vals[1], pp, s)
+
+            def logp(self, x):
+                probe.tick()
+                vals = list(self.dct.values())
+                return logp_core(x, vals[0] * vals[0], vals[1])
+
+            def getparamnames(self, methodname, prefix=""):
+                if methodname in ("fn", "logp"):
+                    return [prefix + "dct[1]", prefix + "dct['a']"]
+                raise KeyError(methodname)
+        m = EMDictRev()
+        rep.fcn, rep.params, rep.logp = m.fn, (p,) + s_tuple, m.logp
+        rep.holders = [m]
+        rep.slots = [(m, "dct[1]", 0), (m, "dct['a']", 1)]
+        rep.nobj = 2
     elif base == "em_nn":
         class EMNN(EditableModule):
             def __init__(self):
